@@ -65,6 +65,8 @@ type Layout struct {
 	Blank    float64  // probability of a blank / whitespace-only line before a line
 	Comment  float64  // probability of a whole-line comment before a line
 	Canonical bool    // 4 spaces, no blank lines, no comments
+	TabMix    float64 // probability of replacing a 4-space unit of a line's leading spaces by a tab
+	Scale     int     // repeat every indentation unit this many times (0/1 = unchanged)
 }
 
 func TypeText(sh Shape) string {
@@ -150,7 +152,15 @@ func (r *renderer) unit() string {
 	if r.lay.Canonical || len(r.lay.Units) == 0 {
 		return "    "
 	}
-	return r.lay.Units[r.rng.Intn(len(r.lay.Units))]
+	u := r.lay.Units[r.rng.Intn(len(r.lay.Units))]
+	if r.lay.Scale > 1 {
+		var b strings.Builder
+		for _, c := range u {
+			b.WriteString(strings.Repeat(string(c), r.lay.Scale))
+		}
+		u = b.String()
+	}
+	return u
 }
 
 func (r *renderer) lead() string {
@@ -178,6 +188,19 @@ func (r *renderer) line(text string) (int, int) {
 			}
 			r.cur.Lines = append(r.cur.Lines, c)
 		}
+	}
+	if r.lay.TabMix > 0 {
+		var b strings.Builder
+		for j := 0; j < len(lead); {
+			if j+4 <= len(lead) && lead[j:j+4] == "    " && r.rng.Float64() < r.lay.TabMix {
+				b.WriteByte('\t')
+				j += 4
+			} else {
+				b.WriteByte(lead[j])
+				j++
+			}
+		}
+		lead = b.String()
 	}
 	r.cur.Lines = append(r.cur.Lines, lead+text)
 	return len(r.cur.Lines) - 1, len([]rune(lead))
@@ -230,6 +253,8 @@ func Render(decls []Decl, lay Layout) *Result {
 		switch d.K {
 		case "file":
 			r.file(d.Name)
+		case "import":
+			r.line("import " + d.Name)
 		case "app":
 			h := d.Name
 			if d.Long != "" {
